@@ -648,3 +648,102 @@ def corrupt_cases(rng, streams, per_stream=40, flavour="asan"):
             cs.mtag = lambda mout: "corrupt-model:" + ("none" if mout is None else mout.split(" ")[0] + ("" if not mout.startswith("unsupported") else ":" + mout.split(" ")[1].split(":")[0][:30]))
             out.append(cs)
     return out
+
+
+# ------------------------------------------------------------------ synthesized connectivity (attribute-less meshes)
+
+_SYM_CODE = {"C": [0], "S": [1, 0, 0], "L": [1, 1, 0], "R": [1, 0, 1], "E": [1, 1, 1]}
+
+
+def _vint(v):
+    out = bytearray()
+    while True:
+        b = v & 0x7f
+        v >>= 7
+        if v:
+            out.append(b | 0x80)
+        else:
+            out.append(b)
+            return bytes(out)
+
+
+def _bits(bits):
+    out = bytearray((len(bits) + 7) // 8)
+    for i, x in enumerate(bits):
+        if x:
+            out[i // 8] |= 1 << (i % 8)
+    return bytes(out)
+
+
+def synth_stream(symbols, splits, startbits, nev, nfaces, nsplitsym=None):
+    """An Edgebreaker mesh stream in the 2.1 layout (standard traversal, start faces as plain bits) written field by
+    field from a symbol string in DECODING order, topology split events (source id, split id, edge), start face bits
+    and the declared counts; no attribute data, zero attribute decoders."""
+    bits = []
+    for c in symbols:
+        bits += _SYM_CODE[c]
+    sym, sf = _bits(bits), _bits(startbits)
+    trav = len(sym).to_bytes(8, "little") + sym + len(sf).to_bytes(8, "little") + sf
+    ev, last = _vint(len(splits)), 0
+    for (src, spl, _) in splits:
+        ev += _vint(src - last) + _vint(src - spl)
+        last = src
+    if splits:
+        eb = []
+        for (_, _, e) in splits:
+            eb += [bool(e & 1), False]
+        ev += _bits(eb)
+    body = bytes([0]) + _vint(0) + _vint(nev) + _vint(nfaces) + bytes([0]) + _vint(len(symbols)) + \
+        _vint(len(splits) if nsplitsym is None else nsplitsym)
+    return b"DRACO" + bytes([2, 1, 1, 1, 0, 0]) + body + _vint(len(trav)) + trav + ev + bytes([0])
+
+
+def synth_connectivity_cases(rng, n=300, maxlen=14, flavour="asan"):
+    """Random symbol strings (not derived from any mesh) with random split events, start face bits and counts: the
+    connectivity decoder alone, on inputs no encoder produces.  About one in nine is accepted (vertex merges of
+    TOPOLOGY_S, split events on either edge, interior start faces, the invalid-vertex compaction with swaps and
+    skipped trailing vertices are all reached).  Model == implementation, and an accepted mesh has to be valid
+    (C03 for attribute-less Edgebreaker meshes, which no check of the attribute decoders covers)."""
+    out = []
+    for _ in range(n):
+        k = rng.randint(1, maxlen)
+        w = rng.choice([(3, 1, 1, 3, 2), (2, 1, 2, 2, 2), (4, 2, 1, 1, 1), (1, 1, 1, 1, 1), (5, 1, 0, 2, 1)])
+        syms = ["E"] + [rng.choices("CSLRE", weights=w)[0] for _ in range(k - 1)]
+        splits, src = [], 0
+        for _ in range(rng.choice([0, 0, 0, 1, 1, 2, 3])):
+            src = rng.randint(src, max(src, k - 1))
+            splits.append((src, rng.randint(0, src), rng.randint(0, 1)))
+        d = 0
+        for c in syms:
+            d = d + 1 if c == "E" else (max(0, d - 1) if c == "S" else d)
+        d = max(1, d + rng.choice([0, 0, 0, 1, -1]) + (len(splits) if rng.random() < 0.5 else 0))
+        sb = [rng.random() < 0.3 for _ in range(d)]
+        nf = max(1, k + sum(sb) + rng.choice([0, 0, 0, 0, 1, -1]))
+        nev = rng.choice([3 * nf + 3, nf + 2, k + 2, rng.randint(3, 3 * nf + 3)])
+        b = synth_stream(syms, splits, sb, nev, nf, rng.choice([None, None, None, 0, len(splits) + 1]))
+        op = f"dec - {b.hex()}"
+
+        def expect(hout, mout, case):
+            if hout.startswith("CRASH"):
+                return None
+            if mout.startswith("unsupported"):
+                return f"synthesized connectivity: the model gives up (`{mout[:120]}`) on `{case.op[:200]}`"
+            if hout != mout:
+                return f"synthesized connectivity: implementation `{hout[:200]}` model `{mout[:200]}` for `{case.op[:200]}`"
+            return None
+
+        def oracle(hout, case):
+            t = hout.split()
+            case.tags = tuple(case.tags) + (("eb-synth:accepted",) if t[:1] == ["ok"] else ("eb-synth:rejected",))
+            if t[:1] != ["ok"]:
+                return None
+            g, _ = G.parse_geom(t, 2)
+            v = g.valid()
+            if v is not None:
+                return (f"the decoder accepted a synthesized Edgebreaker connectivity and returned an invalid mesh ({v}): "
+                        f"`{hout[:200]}` for `{case.op[:300]}`")
+            return None
+
+        c = Case(op, model=op, expect=expect, oracle=oracle, flavour=flavour, tags=("eb-synth",))
+        out.append(c)
+    return out
